@@ -7,7 +7,7 @@ import Mb2.Lemmas.Build
 import Mb2.Lemmas.Tags
 import Mb2.Props.C16
 import Mb2.Props.C02
-import Mb2.Props.C07
+import Mb2.Props.C07Parts
 namespace Mb2.C06
 open Mb2
 
